@@ -145,6 +145,71 @@ def make_f2(pre_factories, label, fn, backend):
     return run
 
 
+def f3_run(carve):
+    """a table / expression does not share mutable containers with its caller: changing a dict / list that was passed to a
+    verb or an expression method afterwards changes neither the metadata nor the exported frame (native)"""
+    import warnings
+
+    import polars as pl
+    import sqlalchemy as sqa
+
+    from .c13 import _enum_outcome
+
+    n, bad = 0, []
+    df = pl.DataFrame({"a": [1, 2, 2], "b": [3, 4, 5], "c": [6, 7, 8]})
+    dfu = pl.DataFrame({"a": [2, 9], "b": [4, 4], "z": [0, 1]})
+    eng = sqa.create_engine("sqlite://")
+    df.write_database("t", eng)
+    dfu.write_database("u", eng)
+
+    def snap(x):
+        if isinstance(x, pdt.Table):
+            out = x >> pdt.ungroup() >> pdt.export(pdt.Polars())
+            return (x >> pdt.columns(), out.columns, sorted(map(str, out.rows())), x._ast.ast_repr())
+        return x.ast_repr()
+
+    with warnings.catch_warnings():
+        warnings.simplefilter("ignore")
+        for be, t, u in (("polars", pdt.Table(df, name="t"), pdt.Table(dfu, name="u")), ("sqlite", pdt.Table("t", pdt.SqlAlchemy(eng)), pdt.Table("u", pdt.SqlAlchemy(eng)))):
+            def cases():
+                m = {"a": "x"}
+                yield "rename(dict with str keys)", t >> pdt.rename(m), lambda: m.update({"b": "y", "a": "q"})
+                m2 = {t.a: "x"}
+                yield "rename(dict with Col keys)", t >> pdt.rename(m2), lambda: m2.update({t.b: "y"})
+                on = [t.a == u.a]
+                yield "join(on=list)", t >> pdt.join(u, on, "inner"), lambda: on.append(t.b == u.b)
+                mp = {1: 10}
+                yield "map(dict)", t >> pdt.mutate(k=t.a.map(mp)), lambda: mp.update({2: 20})
+                key = (1, 2)
+                mp2 = {key: 10}
+                yield "map(dict) expression", t.a.map(mp2), lambda: mp2.update({3: 30})
+                pb = [t.a]
+                yield "partition_by=list", t >> pdt.mutate(k=t.b.sum(partition_by=pb)), lambda: pb.append(t.c)
+                ar = [t.b.descending()]
+                yield "arrange=list", t >> pdt.mutate(k=t.c.shift(1, arrange=ar)), lambda: ar.insert(0, t.a)
+                fl = [t.a > 1]
+                yield "filter=list", t >> pdt.summarize(k=t.b.sum(filter=fl)), lambda: fl.append(t.c > 7)
+                names = ["a", "b"]
+                yield "select(*list)", t >> pdt.select(*names), lambda: names.reverse()
+                d = {"a": [1, 2], "b": [3, 4]}
+                yield "Table(dict)", pdt.Table(d, name="d"), lambda: (d["a"].append(9), d.update({"zz": [0, 0]}))
+                vals = [1, 2]
+                yield "is_in(*list)", t >> pdt.filter(t.a.is_in(*vals)), lambda: vals.append(3)
+
+            for label, obj, mutate_arg in cases():
+                n += 1
+                try:
+                    before = snap(obj)
+                    mutate_arg()
+                    after = snap(obj)
+                except Exception as e:  # noqa: BLE001
+                    bad.append(f"[{be}] {label}: {type(e).__name__}: {str(e)[:140]}")
+                    continue
+                if before != after:
+                    bad.append(f"[{be}] {label}: changing the caller's container after the call changed the result: {str(before)[:160]} -> {str(after)[:160]}")
+    return _enum_outcome("tables and expressions do not alias mutable containers passed by the caller (dicts / lists given to rename, join, map, partition_by, arrange, filter, Table)", n, bad)
+
+
 def obligations(tier):
     fi = H.fn_info
     obs = []
@@ -165,6 +230,8 @@ def obligations(tier):
             for backend in ("polars", "sql"):
                 obs.append(Obligation(f"C10/F2/{backend}/{skel}/{label}", "F2", f"{label}: inputs unchanged ({backend})", make_f2(pf, label, f2, backend), functions=[fi(TS.Cache.update)],
                                       bounded=f"table width {skel.w}; dynamic fingerprint on all symbolic paths"))
+    obs.append(Obligation("C10/F3/caller_containers", "F3", "no aliasing of caller-owned mutable containers (dicts / lists passed to verbs and expression methods)", f3_run,
+                          functions=[fi(pdt._internal.pipe.verbs.rename), fi(pdt._internal.pipe.verbs.join), fi(H.col_expr_mod.ColExpr.map), fi(H.col_expr_mod.ColFn.__init__)], bounded="11 call shapes x 2 backends (native execution)"))
     ls, rs = TS.Skeleton(("vis", "hid")), TS.Skeleton(("vis",))
     pf = [lambda: TS.Pre(ls, "l"), lambda: TS.Pre(rs, "r")]
     for label, info, fn in c06.join_steps(TS.Pre(ls, "l"), TS.Pre(rs, "r")):
